@@ -2,5 +2,6 @@ package c08
 
 // Registry lists the harness entry points of this package for native replay.
 var Registry = map[string]func([]int64){
-	"HarnessPage": func(a []int64) { HarnessPage(int(a[0])) },
+	"HarnessPage":         func(a []int64) { HarnessPage(int(a[0])) },
+	"HarnessPageAfterAdd": func(a []int64) { HarnessPageAfterAdd(int(a[0])) },
 }
